@@ -55,9 +55,103 @@ def keyword_sweep(ctx):
                 ctx.fail('procedural body is not one statement (keyword sweep)', text, observed=got, required=2)
 
 
+CONSTRUCTS = {
+    'if': 'IF a > 1 THEN x := 1; END IF;',
+    'if-else-if': 'IF a THEN x := 1; ELSE IF b THEN y := 2; END IF; END IF;',
+    'if-elsif': 'IF a THEN x := 1; ELSIF b THEN y := 2; ELSE z := 3; END IF;',
+    'begin': 'BEGIN x := 1; y := 2; END;',
+    'while': 'WHILE a < 3 DO x := x + 1; END WHILE;',
+    'loop': 'LOOP x := x + 1; END LOOP;',
+    'case-expr': 'SELECT CASE WHEN a THEN 1 ELSE 2 END INTO v;',
+    'declare': 'DECLARE v int;',
+    'plain': 'UPDATE t SET a = 1;',
+}
+# a construct directly after each keyword that can precede a statement inside a body; %s is the construct
+FRAMES = {
+    'begin': 'BEGIN %s z := 0; END;',
+    'then': 'BEGIN IF c THEN %s z := 0; END IF; w := 1; END;',
+    'else': 'BEGIN IF c THEN z := 0; ELSE %s w := 1; END IF; v := 2; END;',
+    'elsif-then': 'BEGIN IF c THEN z := 0; ELSIF d THEN %s w := 1; END IF; v := 2; END;',
+    'do': 'BEGIN WHILE c DO %s z := 0; END WHILE; w := 1; END;',
+    'loop': 'BEGIN LOOP %s z := 0; END LOOP; w := 1; END;',
+    'after-end-if': 'BEGIN IF c THEN z := 0; END IF; %s w := 1; END;',
+    'after-end': 'BEGIN BEGIN z := 0; END; %s w := 1; END;',
+    'after-end-while': 'BEGIN WHILE c DO z := 0; END WHILE; %s w := 1; END;',
+    'after-end-loop': 'BEGIN LOOP z := 0; END LOOP; %s w := 1; END;',
+    'after-case': 'BEGIN SELECT CASE WHEN c THEN 1 END INTO v; %s w := 1; END;',
+}
+GAPS = [' ', '\n', '  ', '\t', '\r\n', ' /* c */ ', ' -- c\n', '\n\n    ']
+
+
+def adjacency_sweep(ctx):
+    """every construct of the block grammar directly after every keyword / closer that can precede a statement in a body (a lexer rule that
+    joins two adjacent block keywords — ELSE IF, THEN BEGIN, END IF + IF … — or a counter that is wrong after one particular closer shows
+    here), the gaps rendered with every kind of whitespace/comment, inside CREATE [OR REPLACE] PROCEDURE/FUNCTION/TRIGGER, with plain and
+    transaction statements before and after"""
+    rng = ctx.rng
+    heads = ['CREATE PROCEDURE p() ', 'create or replace function f(a int) returns int ', 'CREATE TRIGGER tr BEFORE INSERT ON t FOR EACH ROW ',
+             'Create Or Replace Procedure p(x int) ']
+    pres = ['', 'select 1; ', 'begin; ', 'select case when a then 1 end; ', 'commit; ']
+    posts = ['select 2', 'begin; update t set a = 1; commit', 'select case when a then 1 end']
+    for fname, frame in FRAMES.items():
+        for cname, cons in CONSTRUCTS.items():
+            body = frame % cons
+            for gap in (GAPS if not ctx.quick() else [' ', rng.choice(GAPS[1:])]):
+                # keywords keep single blanks inside (END IF); only the gaps BETWEEN lexemes are re-spelled
+                words = body.split(' ')
+                text_body = words[0]
+                for prev, w in zip(words, words[1:]):
+                    joined_kw = prev.upper() == 'END' and w.rstrip(';').upper() in ('IF', 'WHILE', 'LOOP')
+                    text_body += (' ' if joined_kw or ';' in prev and gap.strip() == '' and False else gap) + w
+                case = rng.choice([str.upper, str.lower, lambda x: x])
+                pre, post = rng.choice(pres), rng.choice(posts)
+                text = pre + rng.choice(heads) + case(text_body) + ' ' + post
+                want = len([p for p in pre.split(';') if p.strip()]) + 1 + len([p for p in post.split(';') if p.strip()])
+                ctx.evaluations += 1
+                ctx.count('adjacency:' + fname)
+                try:
+                    got = len(sqlparse.split(text))
+                except Exception as e:
+                    got = 'raised ' + type(e).__name__
+                if got != want:
+                    ctx.fail('procedural body is not one statement (adjacency sweep %s/%s)' % (fname, cname), text, observed=got, required=want)
+
+
+def tight_paren_sweep(ctx):
+    """block keywords written directly before `(` (IF(a > 1) THEN …, WHILE(i < 3) DO …): the lexer's function-name rule `[A-ZÀ-Ü]\\w*(?=\\()`
+    turns the keyword into a Name, the splitter does not count it, and its END IF / END WHILE closes a level too many (KF-C17-5)"""
+    rng = ctx.rng
+    for cons in ['IF(a > 1) THEN x := 1; END IF;', 'WHILE(a < 3) DO x := x + 1; END WHILE;', 'IF(a) THEN x := 1; ELSE y := 2; END IF;',
+                 'IF (a) THEN WHILE(b) DO x := 1; END WHILE; END IF;', 'if(a) then x := 1; end if;']:
+        for frame in ('BEGIN %s z := 0; END;', 'BEGIN w := 1; %s END;'):
+            text = rng.choice(['select 1; ', '']) + 'CREATE PROCEDURE p() ' + frame % cons + ' select 2'
+            want = text.count('select 1') + 2
+            ctx.evaluations += 1
+            try:
+                got = len(sqlparse.split(text))
+            except Exception as e:
+                got = 'raised ' + type(e).__name__
+            if got != want:
+                ctx.fail('procedural body is not one statement (block keyword directly before a parenthesis)', text, observed=got, required=want)
+
+
+def block_keyword_before_paren(text):
+    """mechanism of KF-C17-5: inside a script with a CREATE, a Name token spelled IF / WHILE / FOR directly followed by `(`"""
+    from sqlparse import lexer, tokens as T
+    toks = list(lexer.tokenize(text))
+    if not any(tt is T.Keyword.DDL and v.upper().startswith('CREATE') for tt, v in toks):
+        return False
+    for (tt, v), (nt, nv) in zip(toks, toks[1:]):
+        if tt is T.Name and v.upper() in ('IF', 'WHILE', 'FOR') and nt is T.Punctuation and nv == '(':
+            return True
+    return False
+
+
 def run(ctx):
     rng = ctx.rng
     keyword_sweep(ctx)
+    adjacency_sweep(ctx)
+    tight_paren_sweep(ctx)
     g = grammar.Gen(rng, maxdepth=2, feat={'sqlfor': True})
     n = ctx.n(400, 10000)
     dom = []
@@ -110,6 +204,8 @@ def for_outside_loop_header(text):
 def classify(f, kf):
     for k in kf:
         if k['id'] == 'KF-C17-4' and isinstance(f.get('input'), str) and for_outside_loop_header(f['input']):
+            return k['id']
+        if k['id'] == 'KF-C17-5' and isinstance(f.get('input'), str) and block_keyword_before_paren(f['input']):
             return k['id']
     return None
 
